@@ -9,13 +9,16 @@
     [t] is exactly one token for that client. *)
 From Coq Require Import String Ascii List Bool Arith NArith.
 From Raven Require Import Base.GoStr Spec.Grammar Model.Respond Model.RespondFetch
-     Proof.Grammar Proof.RespondTok Proof.RespondAsm Proof.RespondProps Proof.RespondEnv.
+     Proof.Grammar Proof.RespondTok Proof.RespondAsm Proof.RespondProps Proof.RespondEnv Proof.RespondItems.
 Import ListNotations.
 
-(** QuoteOrNIL: for every string without CR/LF the result is one well-formed
-    token (NIL or a quoted string) and a non-empty string decodes to itself. *)
-Theorem c13_quote_or_nil_wf : forall s : str, clean s = true ->
-  tokb (quote_or_nil s) = true /\ (s <> [] -> unquote (quote_or_nil s) = Some s).
+(** QuoteOrNIL (since fix wave 3 a value with CR or LF is sent as a literal):
+    for EVERY string the result is one well-formed token — NIL, a quoted
+    string that decodes to the string, or the literal of the string. *)
+Theorem c13_quote_or_nil_wf : forall s : str,
+  tokb (quote_or_nil s) = true
+  /\ (s <> [] -> clean s = true -> unquote (quote_or_nil s) = Some s)
+  /\ (clean s = false -> quote_or_nil s = lit_text s).
 Proof. exact quote_or_nil_wf. Qed.
 Print Assumptions c13_quote_or_nil_wf.
 
@@ -102,21 +105,18 @@ Example c13_new_name_lines_examples :
   /\ wf_stream (send (status_line (S_ "a""b") [(S_ "MESSAGES", 0)])) = true.
 Proof. exact new_name_lines_examples. Qed.
 
-(** BuildEnvelope: for EVERY raw message whose ten envelope header values carry
-    no bare CR ([classify_headers = None]; LF cannot occur, extractHeader
-    splits on it), when parseAddressList returns (C12 owns the panic), the
-    ENVELOPE value is one well-formed token with exactly ten fields, each of
-    them one token. *)
+(** BuildEnvelope, unconditional since fix wave 3: for EVERY raw message, when
+    parseAddressList returns (C12 owns the panic), the ENVELOPE value is one
+    well-formed token with exactly ten fields, each of them one token. *)
 Theorem c13_envelope_wf : forall raw v : str,
-  envelope_value raw = Some v -> classify_headers raw = None ->
+  envelope_value raw = Some v ->
   tokb v = true /\ exists fs, length fs = 10 /\ Forall (fun t => tokb t = true) fs
                               /\ tokens (S (length v)) (skipn 1 v) = Some (fs, [RP]).
 Proof. exact envelope_wf. Qed.
 Print Assumptions c13_envelope_wf.
 
-(** parseAddressList alone, for every CR/LF-free header value. *)
-Theorem c13_address_list_wf : forall a r : str,
-  clean a = true -> parse_address_list a = Some r -> tokp r.
+(** parseAddressList alone, for every header value. *)
+Theorem c13_address_list_wf : forall a r : str, parse_address_list a = Some r -> tokp r.
 Proof. exact parse_address_list_tok. Qed.
 Print Assumptions c13_address_list_wf.
 
@@ -129,95 +129,101 @@ Proof. vm_compute. reflexivity. Qed.
 (** BODYSTRUCTURE of a single-part message: the fields printed after the
     parameter list (id, description, encoding, size, lines, extension NILs),
     computed from the raw message as BuildBodyStructure does, are single tokens;
-    id / description / encoding are NIL or ONE quoted string and the encoding
-    is always one quoted string — for every raw message whose three header
-    values carry no bare CR (hostile quotes, backslashes, parentheses, braces,
-    8-bit included). *)
+    id / description are NIL or ONE string (quoted, or a literal when the value
+    carries CR/LF) and the encoding is one string — for EVERY raw message. *)
 Theorem c13_bodystructure_fields_ok : forall (raw : str) (is_text : bool),
-  clean (extract_header raw (S_ "Content-ID")) = true ->
-  clean (extract_header raw (S_ "Content-Description")) = true ->
-  clean (extract_header raw (S_ "Content-Transfer-Encoding")) = true ->
   Forall (fun t => tokb t = true) (single_tail raw is_text)
   /\ Forall (fun t => nstring_ok t = true) (firstn 3 (single_tail raw is_text))
-  /\ quoted_strict (nth 2 (single_tail raw is_text) []) = true.
+  /\ string_ok (nth 2 (single_tail raw is_text) []) = true.
 Proof. exact single_tail_ok. Qed.
 Print Assumptions c13_bodystructure_fields_ok.
 
-(** every QuoteOrNIL result is NIL or exactly one quoted string (what an
-    nstring field must be), for every CR/LF-free input *)
-Theorem c13_quote_or_nil_nstring : forall s : str, clean s = true -> nstring_ok (quote_or_nil s) = true.
+(** every QuoteOrNIL result is NIL or exactly one string, for every input *)
+Theorem c13_quote_or_nil_nstring : forall s : str, nstring_ok (quote_or_nil s) = true.
 Proof. exact nstring_quote_or_nil. Qed.
 Print Assumptions c13_quote_or_nil_nstring.
 
-(** disposition of a part (unconditional since fix c1eb865): NIL, or a list
-    ("TYPE" params) that starts with ONE quoted string — whether or not Go's
-    mime package could parse the header (an unparsable one arrives with an empty
-    type and is NIL) *)
+(** disposition of a part: NIL, or a list ("TYPE" params) that starts with ONE
+    string — whether or not Go's mime package could parse the header *)
 Theorem c13_disposition_strict : forall disp : option (str * list (str * str)),
-  match disp with Some (t, _) => clean t = true | None => True end ->
   disp_list disp = NIL
   \/ exists t ps rest, disp = Some (t, ps) /\ disp_list disp = LP :: quote_or_nil (to_upper t) ++ rest
-                       /\ quoted_strict (quote_or_nil (to_upper t)) = true.
+                       /\ string_ok (quote_or_nil (to_upper t)) = true.
 Proof. exact disp_list_strict. Qed.
 Print Assumptions c13_disposition_strict.
 
-(** regression: the old output (NIL NIL) starts with NIL, which is not a string *)
 Example c13_old_disposition_nil_malformed :
-  quoted_strict (S_ "NIL") = false /\ disp_list (Some ([], [])) = NIL.
+  string_ok (S_ "NIL") = false /\ disp_list (Some ([], [])) = NIL.
 Proof. exact old_disposition_nil_malformed. Qed.
 
-(** Confirmed: QuoteOrNIL does not handle CR; "Subject: a<CR>b" reaches the
-    ENVELOPE quoted string. *)
-Theorem c13_refuted_bare_cr_header :
-  classify_headers w_cr_msg = Some bare_cr_header
+(** regression (bare_cr_header, repaired): "Subject: a<CR>b" used to reach the
+    ENVELOPE inside a quoted string; it is a literal now and the line is well-formed *)
+Example c13_old_bare_cr_malformed :
+  wf_stream (send (S_ "* 1 FETCH (ENVELOPE (NIL ""a" ++ [CR] ++ S_ "b"" NIL NIL NIL NIL NIL NIL NIL NIL))")) = false
   /\ match envelope_value w_cr_msg with
-     | Some v => wf_stream (send (fetch_line 1 [Inline (S_ "ENVELOPE") v])) = false
+     | Some v => wf_stream (send (fetch_line 1 [Inline (S_ "ENVELOPE") v])) = true
      | None => False
      end.
-Proof. exact refuted_bare_cr. Qed.
-Print Assumptions c13_refuted_bare_cr_header.
+Proof. exact old_bare_cr_malformed. Qed.
 
-(** Requested items that the substring recognition does not answer under
-    their own name ([unanswered req cls]: the request has the shape [cls] and
-    the model's contributions for it miss a requested name). *)
-Theorem c13_refuted_item_suppressed_body :
-  unanswered [I_Simple (S_ "BODY"); I_Sec true (S_Part (S_ "1") false) None] item_suppressed.
-Proof. exact refuted_item_suppressed_body. Qed.
-Print Assumptions c13_refuted_item_suppressed_body.
+(** THE ITEM PARSER (fix wave 3). [parse_items] is total: defined by structural
+    recursion over the text (every byte string has a list of items, at most
+    one per byte; no slice or index can fail). *)
+Theorem c13_item_parser_total : forall items : str,
+  exists its, parse_items items = its /\ length its <= length items.
+Proof. exact item_parser_total. Qed.
+Print Assumptions c13_item_parser_total.
 
-Theorem c13_refuted_item_suppressed_rfc822 :
-  unanswered [I_Simple (S_ "RFC822"); I_Simple (S_ "RFC822.SIZE")] item_suppressed.
-Proof. exact refuted_item_suppressed_rfc822. Qed.
-Print Assumptions c13_refuted_item_suppressed_rfc822.
+(** For every request made of valid, pairwise different RFC 3501 data items —
+    the nine plain items, BODY[] / BODY[TEXT] / BODY[HEADER] / BODY[HEADER.FIELDS
+    (names)] / numbered sections with or without .MIME, PEEK or not, with or
+    without a range <a.b> — and for every message: the response parts carry
+    exactly the requested names, each exactly once, in request order, with the
+    origin <a> for every partial. (RFC822 is the one exception, see
+    [c13_refuted_rfc822_renamed]; [None] = the Go code panics, C12.) *)
+Theorem c13_items_answered : forall (req : list fitem) (e : fenv) (plan : list out),
+  forallb item_valid req = true -> NoDup (map expected_name req) ->
+  fetch_plan (render_req req) e = Some plan ->
+  map out_label plan = map expected_name req.
+Proof. exact items_answered. Qed.
+Print Assumptions c13_items_answered.
 
-Theorem c13_refuted_item_suppressed_header :
-  unanswered [I_Sec false S_Header None; I_Sec false (S_Fields [S_ "TO"]) None] item_suppressed.
-Proof. exact refuted_item_suppressed_header. Qed.
-Print Assumptions c13_refuted_item_suppressed_header.
+(** Both halves together: for such a request, when the contributions are
+    single tokens ([out_okb], see [c13_fetch_assembly_ok]), the line sent is
+    well-formed and the strict client reads back exactly the requested item
+    names, each with one value. *)
+Theorem c13_requested_items_in_response : forall (req : list fitem) (e : fenv) (plan : list out) (seq : nat),
+  req <> [] -> forallb item_valid req = true -> NoDup (map expected_name req) ->
+  fetch_plan (render_req req) e = Some plan -> forallb out_okb plan = true ->
+  wf_stream (send (fetch_line seq plan)) = true
+  /\ exists ps, fetch_pairs (send (fetch_line seq plan)) = Some (dec seq, ps)
+                /\ map fst ps = map expected_name req.
+Proof. exact requested_items_in_response. Qed.
+Print Assumptions c13_requested_items_in_response.
 
-Theorem c13_refuted_item_suppressed_twice :
-  unanswered [I_Sec true S_Header None; I_Sec true S_Header (Some (3, 5))] item_suppressed.
-Proof. exact refuted_item_suppressed_twice. Qed.
-Print Assumptions c13_refuted_item_suppressed_twice.
-
+(** still open: a requested RFC822 is answered under the name BODY[] — raven's
+    own test TestFetchCommand_RFC822 asserts that answer *)
 Theorem c13_refuted_rfc822_renamed : unanswered [I_Simple (S_ "RFC822")] rfc822_renamed.
 Proof. exact refuted_rfc822_renamed. Qed.
 Print Assumptions c13_refuted_rfc822_renamed.
 
-Theorem c13_refuted_partial_range : unanswered [I_Sec false S_Text (Some (0, 5))] partial_range.
-Proof. exact refuted_partial_range. Qed.
-Print Assumptions c13_refuted_partial_range.
+(** regression: the request shapes of the retired classes item_suppressed and
+    partial_range, answered item by item now; and their old answers *)
+Example c13_regression_items_answered :
+  answered_now [I_Simple (S_ "BODY"); I_Sec true (S_Part (S_ "1") false) None]
+  /\ answered_now [I_Simple (S_ "RFC822.SIZE"); I_Simple (S_ "RFC822.HEADER"); I_Simple (S_ "BODYSTRUCTURE"); I_Simple (S_ "BODY")]
+  /\ answered_now [I_Sec false S_Header None; I_Sec false (S_Fields [S_ "TO"]) None; I_Sec true (S_Fields [S_ "SUBJECT"; S_ "X-UID"]) None]
+  /\ answered_now [I_Sec true S_Header None; I_Sec true S_Header (Some (3, 5))]
+  /\ answered_now [I_Sec false S_Text (Some (0, 5)); I_Sec false (S_Part (S_ "1") false) (Some (3, 4)); I_Sec false S_Text None]
+  /\ answered_now [I_Sec false (S_Fields [S_ "SUBJECT"]) (Some (2, 6)); I_Sec false (S_Part (S_ "2") false) (Some (0, 9))].
+Proof. exact regression_items_answered. Qed.
 
-(** a request of none of these shapes, answered item by item by the model *)
-Example c13_answered_example :
-  let req := [I_Simple (S_ "UID"); I_Simple (S_ "FLAGS"); I_Simple (S_ "ENVELOPE");
-              I_Sec true (S_Fields [S_ "Subject"; S_ "to"]) None] in
-  classify_req req = None
-  /\ match fetch_plan (fetch_items (render_req req)) w_env with
-     | Some plan => answered req plan = true /\ forallb out_okb plan = true
-     | None => False
-     end.
-Proof. exact answered_example. Qed.
+Example c13_old_item_answers :
+  option_map (fun r => map fst (snd r)) (fetch_pairs (send (S_ "* 1 FETCH (BODY[1] {5}" ++ crlf ++ S_ "hello)")))
+    = Some [S_ "BODY[1]"]
+  /\ option_map (fun r => map fst (snd r)) (fetch_pairs (send (S_ "* 1 FETCH (BODY[TEXT] {5}" ++ crlf ++ S_ "hello)")))
+    = Some [S_ "BODY[TEXT]"].
+Proof. exact old_item_answers. Qed.
 
 (** non-vacuity of the hypotheses of [c13_fetch_assembly_ok] *)
 Example c13_assembly_example :
